@@ -15,7 +15,7 @@ e2e                scripted puppet tests write seeded streams; the event tap's l
                    are compared with what the puppet wrote (after the documented normalisations,
                    implemented here independently).
 Oracles are plain Python and never look at the model."""
-import json, os, re, sys, time, concurrent.futures
+import json, os, re, signal, sys, time, concurrent.futures
 import xml.etree.ElementTree as ET
 import vlib, e2e
 from props.C13 import py_xxh64
@@ -686,7 +686,8 @@ def script_run(idx):
     prof = run["profile"]
     run["config"] = ('experimental = ["setup-scripts"]\n' + run["config"] +
                      f'[[profile.{prof}.scripts]]\nfilter = "all()"\nsetup = "c16script"\n'
-                     f'[script.c16script]\ncommand = ["/usr/bin/python3", "-S", "-c", {json.dumps(SCRIPT_CODE)}]\n')
+                     f'[script.c16script]\ncommand = ["/usr/bin/python3", "-S", "-c", {json.dumps(SCRIPT_CODE)}]\n'
+                     'capture-stdout = true\ncapture-stderr = true\n')
     run["script"] = True
     return run
 
@@ -705,6 +706,131 @@ def oracle_script(run, res):
 
 
 LEAK_X = b"before-exit\n"
+
+
+LOG_W = 32
+
+
+def logger_expected(tag, nlines, combined):
+    """the deterministic stream(s) a `logger` behaviour writes: per stream, or in write order"""
+    out = [puppet.logger_line(tag, "stdout", n, LOG_W) for n in range(nlines)]
+    err = [puppet.logger_line(tag, "stderr", n, LOG_W) for n in range(nlines)]
+    if combined:
+        return b"".join(x for pair in zip(out, err) for x in pair)
+    return b"".join(out), b"".join(err)
+
+
+def kill_run(idx, name, ntests, flavour, grace_ms, stop=False, period_ms=400):
+    """tests that never stop logging and are killed for a timeout (grace 0: SIGKILL at once; grace > 0:
+    they ignore SIGTERM and keep logging until the SIGKILL). What was in the pipe when the test died
+    must still be captured. stop: nextest itself is SIGSTOPped across the deadline and continued."""
+    # a lightly paced logger (one short sleep per pair of lines) keeps the volume at a few hundred KB
+    # per test; while nextest is stopped an unpaced one fills the pipe and keeps it full
+    tests = {f"lg{t}": [{"logger": {"tag": f"r{idx}t{t}", "width": LOG_W, "count_file": f"count-lg{t}.bin",
+                                    "every": 0 if stop else 0.00001},
+                         "on_term": "ignore", "tstp": "ignore"}] for t in range(ntests)}
+    run = fixed_run(idx, name, tests, flavour=flavour)
+    run["config"] = run["config"].replace(
+        "fail-fast = false\n", "fail-fast = false\n"
+        f'slow-timeout = {{ period = "{period_ms}ms", terminate-after = 1, grace-period = "{grace_ms}ms" }}\n')
+    run["kill"] = True
+    run["stop"] = stop
+    return run
+
+
+def kill_runs(start, r, thorough):
+    specs = [("kill-grace0-1", 1, "text", 0, False), ("kill-grace0-8", 8, "text", 0, False),
+             ("kill-grace0-1-combined", 1, "combined", 0, False), ("kill-grace0-8-combined", 8, "combined", 0, False),
+             ("kill-stopped-across-deadline", 1, "text", 0, True),
+             ("kill-stopped-across-deadline-combined", 2, "combined", 0, True),
+             ("kill-sigterm-ignored", 2, "text", 250, False),
+             ("kill-sigterm-ignored-combined", 1, "combined", 250, False)]
+    if thorough:
+        specs = specs * 4 + [("kill-sigterm-ignored-stopped", 3, "text", 250, True)] * 3
+    return [kill_run(start + i, nm, n, fl, g, st, period_ms=r.choice([300, 400, 500]))
+            for i, (nm, n, fl, g, st) in enumerate(specs)]
+
+
+def kill_signals(run):
+    """SIGSTOP nextest as soon as the first logger has started, SIGCONT it well after the deadline"""
+    if not run.get("stop"):
+        return ()
+    t = [None]
+
+    def later(ctx):
+        t[0] = t[0] or time.monotonic()
+        return time.monotonic() >= t[0] + 1.2
+
+    return [(e2e.log_has("start", test="lg0"), signal.SIGSTOP), (later, signal.SIGCONT)]
+
+
+def oracle_kill(run, res):
+    fails, cnt = [], {}
+    comb = run["flavour"] == "combined"
+    if res["timed_out"] or res["rc"] not in (0, 100):
+        return [f"nextest exited with {res['rc']} (timed out: {res['timed_out']}): {res['stderr'][-600:]}"], cnt
+    fin = {e["test"][1]: e["statuses"] for e in res["tap"] if e.get("kind") == "TestFinished"}
+    path = os.path.join(res["junit_dir"], run["profile"], "junit.xml")
+    try:
+        root = ET.parse(path).getroot()
+        cases = {tc.get("name"): tc for suite in root.findall("testsuite") for tc in suite.findall("testcase")}
+    except (ET.ParseError, OSError) as ex:
+        return [f"JUnit report {path} is not well-formed XML / missing: {ex}"], cnt
+    blocks = display_blocks(res["stderr"], False)
+    seen = set()
+    for (b, name) in run["tests"]:
+        beh = run["scenario"]["bins"][b]["tests"][name]["attempts"][0]
+        tag = beh["logger"]["tag"]
+        counts = [0, 0]
+        try:
+            raw = open(os.path.join(res["dir"], beh["logger"]["count_file"]), "rb").read()
+            counts = [int.from_bytes(raw[0:8], "little"), int.from_bytes(raw[8:16], "little")]
+        except OSError:
+            pass
+        sts = fin.get(name)
+        if not sts:
+            fails.append(f"{b} {name}: no TestFinished event")
+            continue
+        o = sts[0]["output"]
+        cnt["kill_attempts"] = cnt.get("kill_attempts", 0) + 1
+        cnt["kill_" + sts[0]["result"]["kind"]] = cnt.get("kill_" + sts[0]["result"]["kind"], 0) + 1
+        if comb:
+            streams = [("combined", "OUTPUT", "system-out", counts[0] + counts[1], o.get("combined"))]
+        else:
+            streams = [("stdout", "STDOUT", "system-out", counts[0], o.get("stdout")),
+                       ("stderr", "STDERR", "system-err", counts[1], o.get("stderr"))]
+        for sname, kind, tag_xml, confirmed, got in streams:
+            seen.add((b, name, 1, kind))
+            if got is None:
+                fails.append(f"{b} {name}: {sname} not captured")
+                continue
+            ln = got["len"]
+            nl = ln // LOG_W + 1
+            exp = logger_expected(tag, nl, True) if comb else logger_expected(tag, nl, False)[0 if sname == "stdout" else 1]
+            cnt["kill_bytes"] = cnt.get("kill_bytes", 0) + ln
+            if ln < confirmed * LOG_W:
+                fails.append(f"{b} {name}: captured {sname} has {ln} bytes, but the test had completely written "
+                             f"{confirmed * LOG_W} bytes ({confirmed} lines) to it before it was killed: "
+                             f"{confirmed * LOG_W - ln} bytes that were in the pipe when the test died are lost")
+                continue
+            if ln % LOG_W or ln > (confirmed + 1) * LOG_W or int(got["xxh64"]) != py_xxh64(exp[:ln]):
+                fails.append(f"{b} {name}: captured {sname} ({ln} bytes, {confirmed} lines confirmed written) is not a "
+                             f"prefix of the test's own line stream")
+                continue
+            text = exp[:ln].decode()
+            tc = cases.get(name)
+            node = tc.find(tag_xml) if tc is not None else None
+            if node is None or (node.text or "") != text:
+                have = None if node is None else len(node.text or "")
+                fails.append(f"JUnit: {b} {name} {tag_xml} has {have} characters, the captured stream has {ln}")
+            got_blocks = blocks.get((b, name, 1, kind), [])
+            seen.add((b, name, 1, kind))
+            if ln and (len(got_blocks) != 1 or got_blocks[0] != text):
+                fails.append(f"display: {b} {name} {kind} is shown {len(got_blocks)} times / differs from the "
+                             f"captured stream ({ln} bytes)")
+    if set(blocks) - seen:
+        fails.append(f"display: output blocks for attempts that do not exist: {sorted(set(blocks) - seen)[:4]}")
+    return fails, cnt
 
 
 def leak_run(idx):
@@ -945,7 +1071,8 @@ def run_e2e(chk, rig, runs, par=4):
     results = {}
 
     def one(run):
-        res = rig.run(run["scenario"], run["config"], args=run["args"], env_extra=run["env"], timeout=300)
+        res = rig.run(run["scenario"], run["config"], args=run["args"], env_extra=run["env"], timeout=300,
+                      signals=kill_signals(run), keep=bool(run.get("kill")))
         return run["idx"], res
 
     with concurrent.futures.ThreadPoolExecutor(max_workers=par) as ex:
@@ -1004,6 +1131,7 @@ def run(tier, seed):
     runs.append(leak_run(len(runs)))
     runs.append(terminate_run(len(runs)))
     runs.append(script_run(len(runs)))
+    runs.extend(kill_runs(len(runs), r, thorough))
     plan = (["mixed"] * 8 + ["text"] * 8 + ["colour"] * 3 + ["combined"] * 3 + ["big"] * 2) if not thorough else \
            (["mixed"] * 100 + ["text"] * 120 + ["colour"] * 50 + ["combined"] * 50 + ["big"] * 24)
     for fl in plan:
@@ -1019,8 +1147,14 @@ def run(tier, seed):
         chk.count("e2e_" + run_["flavour"])
         if run_.get("leak"):
             fails, known, cnt = oracle_leak(run_, res), [], {}
+        elif run_.get("kill"):
+            fails, cnt = oracle_kill(run_, res)
+            known = []
+            rig.cleanup(res)
         else:
             fails, known, cnt = oracle_run(run_, res)
+            if run_.get("script"):
+                fails = fails + oracle_script(run_, res)
         norm_pairs.extend(cnt.pop("_norm", []))
         for k, v in cnt.items():
             chk.count("e2e_" + k, v)
@@ -1030,7 +1164,8 @@ def run(tier, seed):
             chk.violation("counterexample", "e2e:capture",
                           dict(run={k: run_[k] for k in ("flavour", "scenario", "config", "args", "env", "profile", "tests",
                                                         "retries", "check_display", "idx")},
-                               leak=bool(run_.get("leak")), script=bool(run_.get("script")), clauses=fails[:6], nextest_stderr=res["stderr"][-1500:]))
+                               leak=bool(run_.get("leak")), script=bool(run_.get("script")), kill=bool(run_.get("kill")),
+                               stop=bool(run_.get("stop")), run_name=run_.get("name"), clauses=fails[:6], nextest_stderr=res["stderr"][-1500:]))
             break
         for b, t in run_["scenario"]["bins"].items():
             for name, spec in t["tests"].items():
@@ -1098,7 +1233,13 @@ def replay(path, seed):
         rig = e2e.Rig()
         run_ = d["run"]
         run_["tests"] = [tuple(t) for t in run_["tests"]]
-        res = rig.run(run_["scenario"], run_["config"], args=run_["args"], env_extra=run_["env"], timeout=300)
+        run_["stop"], run_["kill"] = bool(d.get("stop")), bool(d.get("kill"))
+        res = rig.run(run_["scenario"], run_["config"], args=run_["args"], env_extra=run_["env"], timeout=300,
+                      signals=kill_signals(run_), keep=run_["kill"])
+        if run_["kill"]:
+            fails = oracle_kill(run_, res)[0]
+            print("oracle:", fails or "accepts")
+            return 1 if fails else 0
         fails = oracle_leak(run_, res) if d.get("leak") else oracle_run(run_, res)[0]
         if d.get("script"):
             fails = fails + oracle_script(run_, res)
